@@ -507,9 +507,18 @@ class Unit:
         if fn.loops:
             loops = find_loops(text, mask)
             for ordinal, spec in fn.loops.items():
-                if ordinal >= len(loops):
-                    raise ExtractError(f"{file}:{bline} {qual}: loop #{ordinal} not found ({len(loops)} loops)")
-                kw_pos, open_pos = loops[ordinal]
+                if isinstance(ordinal, str):
+                    # keyed by a pattern of the loop header (robust against reordering of loops)
+                    hits = [k for k, (kp, op) in enumerate(loops) if re.search(ordinal, text[kp:op])]
+                    if len(hits) != 1:
+                        raise ExtractError(f"{file}:{bline} {qual}: loop header pattern {ordinal!r} matches {len(hits)} loops")
+                    label = re.sub(r'[^A-Za-z0-9]+', '_', ordinal).strip('_')[:24]
+                    kw_pos, open_pos = loops[hits[0]]
+                    ordinal = label
+                else:
+                    if ordinal >= len(loops):
+                        raise ExtractError(f"{file}:{bline} {qual}: loop #{ordinal} not found ({len(loops)} loops)")
+                    kw_pos, open_pos = loops[ordinal]
                 lines = []
                 if spec.get('invariant'):
                     lines.append(('gen', '\n            invariant\n'))
